@@ -24,16 +24,39 @@ type SolveResult struct {
 }
 
 type solverSpec struct {
-	name string
-	args func(file string, secs int) []string
+	name  string
+	args  func(file string, secs int) []string
+	delay int // seconds to wait before starting (second-line configurations)
+	tactic string // replaces (check-sat) by (check-sat-using <tactic>) in a copy of the file
 }
 
 var solvers = []solverSpec{
-	{"z3-new", func(f string, s int) []string { return []string{"z3-new", "-T:" + itoa(s), f} }},
-	{"z3", func(f string, s int) []string { return []string{"z3", "-T:" + itoa(s), f} }},
+	{"z3-new", func(f string, s int) []string { return []string{"z3-new", "-T:" + itoa(s), f} }, 0, ""},
+	{"z3", func(f string, s int) []string { return []string{"z3", "-T:" + itoa(s), f} }, 0, ""},
+	// without array extensionality: a weaker theory, so only its refutations (unsat) count
+	{"z3-new-noext", func(f string, s int) []string {
+		return []string{"z3-new", "-T:" + itoa(s), "smt.array.extensional=false", f}
+	}, 0, ""},
+	// preprocessing (value propagation, equation solving) before the SMT core: steadier on the large merged-state queries
+	{"z3-new-pre-noext", func(f string, s int) []string {
+		return []string{"z3-new", "-T:" + itoa(s), "smt.array.extensional=false", f}
+	}, 0, "(then simplify propagate-values solve-eqs smt)"},
+	// second line, started when nothing answered within two seconds: other search orders of the same solver
+	{"z3-new-pre-s3-noext", func(f string, s int) []string {
+		return []string{"z3-new", "-T:" + itoa(s), "smt.array.extensional=false", "smt.random_seed=3", f}
+	}, 2, "(then simplify propagate-values solve-eqs smt)"},
+	{"z3-new-pre-s5-noext", func(f string, s int) []string {
+		return []string{"z3-new", "-T:" + itoa(s), "smt.array.extensional=false", "smt.random_seed=5", f}
+	}, 2, "(then simplify propagate-values solve-eqs smt)"},
+	{"z3-new-lp2-noext", func(f string, s int) []string {
+		return []string{"z3-new", "-T:" + itoa(s), "smt.array.extensional=false", "smt.arith.solver=2", f}
+	}, 2, ""},
+	{"z3-new-s13", func(f string, s int) []string {
+		return []string{"z3-new", "-T:" + itoa(s), "smt.random_seed=13", f}
+	}, 2, ""},
 	{"cvc5", func(f string, s int) []string {
 		return []string{"cvc5", "--tlimit=" + itoa(s*1000), "--incremental", f}
-	}},
+	}, 0, ""},
 }
 
 func itoa(i int) string { return strconv.Itoa(i) }
@@ -46,6 +69,14 @@ func Solve(dir, name, smt string, secs int, all bool) SolveResult {
 	os.MkdirAll(filepath.Dir(file), 0o755)
 	if err := os.WriteFile(file, []byte(smt), 0o644); err != nil {
 		return SolveResult{Answer: "error", Raw: err.Error()}
+	}
+	tacFiles := map[string]string{}
+	for _, sp := range solvers {
+		if sp.tactic != "" && tacFiles[sp.tactic] == "" {
+			tf := filepath.Join(dir, name+".pre.smt2")
+			os.WriteFile(tf, []byte(strings.Replace(smt, "(check-sat)", "(check-sat-using "+sp.tactic+")", 1)), 0o644)
+			tacFiles[sp.tactic] = tf
+		}
 	}
 	ctx, cancel := context.WithCancel(context.Background())
 	defer cancel()
@@ -60,8 +91,22 @@ func Solve(dir, name, smt string, secs int, all bool) SolveResult {
 		wg.Add(1)
 		go func() {
 			defer wg.Done()
+			if sp.delay > 0 {
+				if sp.delay >= secs {
+					return
+				}
+				select {
+				case <-ctx.Done():
+					return
+				case <-time.After(time.Duration(sp.delay) * time.Second):
+				}
+			}
 			t0 := time.Now()
-			a := sp.args(file, secs)
+			sf := file
+			if sp.tactic != "" {
+				sf = tacFiles[sp.tactic]
+			}
+			a := sp.args(sf, secs-sp.delay)
 			cctx, ccancel := context.WithTimeout(ctx, time.Duration(secs+5)*time.Second)
 			defer ccancel()
 			cmd := exec.CommandContext(cctx, a[0], a[1:]...)
@@ -91,6 +136,8 @@ func Solve(dir, name, smt string, secs int, all bool) SolveResult {
 			switch {
 			case first == "unsat":
 				ans = "unsat"
+			case first == "sat" && strings.HasSuffix(sp.name, "-noext"):
+				ans = "unknown"
 			case first == "sat":
 				ans = "sat"
 				if i := strings.Index(s, "\n"); i >= 0 {
